@@ -206,7 +206,7 @@ def rand_case(rng):
         else:
             ops.append({"op": "setitem", "name": rng.choice(names), "v": rand_value(rng)})
     return {"name": rng.choice(["div", "span", "x-y"]), "via": rng.choice(["fn", "Tag"]), "ctor": {"args": args, "kw": kw}, "ops": ops,
-            "children": rng.random() < 0.3}
+            "children": rng.random() < 0.3, "after_failures": rng.randint(1, 5) if rng.random() < 0.15 else 0}
 
 
 def collisions(c):
